@@ -53,13 +53,13 @@ var hooksSeen atomic.Int64
 func installHooks(lg *logT, firsts *atomic.Int64) {
 	hook.Set(func(p string) {
 		switch {
-		case strings.HasSuffix(p, ":r.schedules.startFirst"):
+		case strings.HasSuffix(p, ".startFirst"):
 			hooksSeen.Add(1)
 			lg.add("[7]")
 			if firsts != nil {
 				firsts.Add(1)
 			}
-		case strings.HasSuffix(p, ":r.schedules.startNext"):
+		case strings.HasSuffix(p, ".startNext"):
 			hooksSeen.Add(1)
 			lg.add("[8]")
 		}
